@@ -631,7 +631,9 @@ CLAUSE_RE = re.compile(r"//#\s*(\S+)(?:\s+tags=(\S+))?\s*$")
 
 
 class Generator:
-    def __init__(self, repo, template_path):
+    def __init__(self, repo, template_path, canary=False):
+        self.canary = canary
+        self.canaries = []       # (canary id, item id, where)
         self.repo = repo
         self.template_path = template_path
         self.out = []            # list of (text_line, mapinfo)
@@ -860,6 +862,21 @@ class Generator:
                     add_inj(si[ss], "before", expr_lines, f"{iid}.cancel.{n}")
             elif any(bk.where == "cancel" for bk in blocks):
                 pass  # a cancel clause without awaits is harmless
+            if self.canary and not opts.get("trusted"):
+                si = sig(pieces)
+
+                def add_canary(idx, pos, where):
+                    n = len(self.canaries) + 1
+                    self.canaries.append({"id": f"CANARY.{n}", "item": iid, "where": where})
+                    add_inj(idx, pos, [f"        assert(vcanary({n})); //# CANARY.{n}"], f"CANARY.{n}")
+                add_canary(body_open, "after", "fn entry")
+                for K, lp in enumerate(loops_info, 1):
+                    add_canary(si[lp[1]], "after", f"loop {K} body entry")
+                    # after the loop (code following it must be reachable unless the loop never exits)
+                for n, aw in enumerate(awaits, 1):
+                    k = max(x for x in range(len(si)) if si[x] < aw)
+                    ss = stmt_start(pieces, si, k, body_k + 1)
+                    add_canary(si[ss], "before", f"cancel point {n}")
             if opts.get("trusted"):
                 kill(pieces, range(body_open, body_close + 1))
                 pieces[body_open] = Piece("{ unimplemented!() }", "rw", pieces[body_open].line, rule="TRUSTED", tkind="rwtext")
@@ -922,12 +939,16 @@ class Generator:
                     buf = ""
                 elif buf:
                     buf = ""
-                for l in bl:
-                    m = CLAUSE_RE.search(l)
+                # a `//# ID` marker closes a clause: it names its own line and the unmarked lines above it
+                ids = [None] * len(bl)
+                nxt = (default_id, tags)
+                for n in range(len(bl) - 1, -1, -1):
+                    m = CLAUSE_RE.search(bl[n])
                     if m:
-                        cid = m.group(1)
-                        ctags = tuple(m.group(2).split(",")) if m.group(2) else tags
-                        l = l[:m.start()].rstrip()
+                        nxt = (m.group(1), tuple(m.group(2).split(",")) if m.group(2) else tags)
+                        bl[n] = bl[n][:m.start()].rstrip()
+                    ids[n] = nxt
+                for l, (cid, ctags) in zip(bl, ids):
                     c = self.clauses.setdefault(cid, {"tags": list(ctags), "text": "", "item": iid, "fn": path, "file": file})
                     c["text"] = (c["text"] + " " + l.strip()).strip()
                     self.out.append((l + f" /*@{cid}*/", {"k": "inj", "clause": cid, "tags": list(ctags), "item": iid}))
@@ -971,6 +992,8 @@ class Generator:
             raise ExtractError(f"fidelity check failed for {iid}: token count {len(got)} vs {len(want)}")
 
     def result(self):
+        if self.canary:
+            self.emit("verus! { pub uninterp spec fn vcanary(n: int) -> bool; }", {"k": "tmpl"})
         text = "\n".join(l for (l, _) in self.out) + "\n"
         linemap = [info for (_, info) in self.out]
         return text, linemap
@@ -992,13 +1015,14 @@ def _cancel_tags(block, default):
     return default
 
 
-def generate(repo, template, out_rs, out_map):
-    g = Generator(repo, template)
+def generate(repo, template, out_rs, out_map, canary=False):
+    g = Generator(repo, template, canary=canary)
     g.run()
     text, linemap = g.result()
     os.makedirs(os.path.dirname(out_rs), exist_ok=True)
     open(out_rs, "w").write(text)
-    meta = {"template": template, "items": g.items, "rules": g.applied.rules, "clauses": g.clauses, "linemap": linemap}
+    meta = {"template": template, "items": g.items, "rules": g.applied.rules, "clauses": g.clauses, "linemap": linemap,
+            "canaries": g.canaries}
     json.dump(meta, open(out_map, "w"))
     return meta
 
